@@ -121,6 +121,17 @@ def _call_sites(ctx):
     return out
 
 
+def fold_normal(t):
+    """`x.at[-1].set(1 - sum(x[:-1]))` is `x.at[-1].add(1 - sum(x))`: the last entry becomes one minus the others either way (the second spelling is the
+    form the rules are written against)."""
+    if t[0] == "scatter" and len(t) == 4 and t[2] == K(-1):
+        x, v = t[1], t[3]
+        head = ("app", "sum", (("app", "slice", (x, ("const", None), K(-1), ("const", None))),))
+        if v == T_sub(ONE, head):
+            return ("atadd", x, K(-1), T_sub(ONE, ("app", "sum", (x,))))
+    return t
+
+
 def sum_of(I, t):
     """sum over all entries, pushing through tail folding: sum(x.at[i].add(v)) = sum(x) + v."""
     if t[0] == "atadd" and not I.axes_of(t[2]) and t[2][0] != "tuple":
@@ -269,6 +280,7 @@ def _demoor(ctx, col):
     o, f = ctx.ct.require(cls, "_calculate_demand_probabilities")
     if table is None:
         raise AnalysisError("anchor vanished: DeMoor.demand_probabilities")
+    table = fold_normal(table)
     tot = sum_of(I, table)
     col.add("R13.1", "DeMoorSingleProductPerishable._calculate_demand_probabilities", o.module.relpath, f.lineno, tot == ONE,
             "sum(table) == sum(x) + (1 - sum(x)) == 1 as a term" if tot == ONE else
